@@ -116,6 +116,85 @@ def _lean_pair_list(xs):
     return '[' + ', '.join(f'("{a}", "{b}")' for a, b in xs) + ']'
 
 
+# ---- C14 (additive): serializer tag strings, the units regex and the registration order
+
+def _lean_str(x):
+    return '"' + x.replace('\\', '\\\\').replace('"', '\\"').replace('\n', '\\n') + '"'
+
+
+def _fstring_affixes(method):
+    """(prefix, suffix) of the f-strings in a `serialize` method: the leading and trailing
+    literal parts.  Several f-strings must agree; otherwise an '<<inconsistent…>>' marker is
+    emitted so that the theorems over the tables stop checking."""
+    found = []
+    if method is None:
+        return ('<<missing>>', '<<missing>>')
+    for n in ast.walk(method):
+        if isinstance(n, ast.JoinedStr) and n.values:
+            first, last = n.values[0], n.values[-1]
+            pre = first.value if isinstance(first, ast.Constant) and isinstance(first.value, str) else ''
+            suf = last.value if (len(n.values) > 1 and isinstance(last, ast.Constant)
+                                 and isinstance(last.value, str)) else ''
+            # only the tag-building f-strings (they start with '!')
+            if pre.startswith('!') or not found:
+                found.append((pre, suf))
+    found = [f for f in found if f[0].startswith('!')] or found
+    if not found:
+        return ('<<missing>>', '<<missing>>')
+    if len(set(found)) > 1:
+        return ('<<inconsistent: ' + ' | '.join(sorted({f[0] for f in found})) + '>>',
+                '<<inconsistent: ' + ' | '.join(sorted({f[1] for f in found})) + '>>')
+    return found[0]
+
+
+def _regex_source(cls):
+    """the string constant given to re.compile(...) inside the class"""
+    if cls is None:
+        return '<<missing>>'
+    for n in ast.walk(cls):
+        if isinstance(n, ast.Call) and isinstance(n.func, ast.Attribute) and n.func.attr == 'compile' \
+                and n.args and isinstance(n.args[0], ast.Constant) and isinstance(n.args[0].value, str):
+            return n.args[0].value
+    return '<<missing>>'
+
+
+def _serializer_order(init):
+    """class names of `for SerializerClass in (A, B, ...)` in vivarium/__init__.py"""
+    for n in ast.walk(init):
+        if isinstance(n, ast.For) and isinstance(n.target, ast.Name) \
+                and n.target.id == 'SerializerClass' and isinstance(n.iter, (ast.Tuple, ast.List)):
+            return [e.id for e in n.iter.elts if isinstance(e, ast.Name)]
+    return []
+
+
+def _extract_serialize(info, init):
+    try:
+        ser = _parse('vivarium/core/serialize.py')
+    except Exception:  # noqa
+        ser = ast.parse('')
+    out = {}
+    for key, cname in (('units', 'UnitsSerializer'), ('quantity', 'QuantitySerializer'),
+                       ('function', 'FunctionSerializer'), ('process', 'ProcessSerializer')):
+        cls = _find_class(ser, cname)
+        out[key] = _fstring_affixes(_find_method(cls, 'serialize') if cls else None)
+    info['serialize_tags'] = out
+    info['units_regex'] = _regex_source(_find_class(ser, 'UnitsSerializer'))
+    info['serializer_order'] = _serializer_order(init)
+
+
+def _render_serialize(info, L):
+    tags = info.get('serialize_tags', {})
+    L.append('/-- literal head / tail of the f-strings in the `serialize` methods of `vivarium/core/serialize.py` -/')
+    for key in ('units', 'quantity', 'function', 'process'):
+        pre, suf = tags.get(key, ('<<missing>>', '<<missing>>'))
+        L.append(f'def {key}TagPrefix : String := {_lean_str(pre)}')
+        L.append(f'def {key}TagSuffix : String := {_lean_str(suf)}')
+    L.append('/-- source of the regex compiled in `UnitsSerializer.__init__` -/')
+    L.append(f'def unitsRegexSource : String := {_lean_str(info.get("units_regex", "<<missing>>"))}')
+    L.append('/-- serializer classes in the order `vivarium/__init__.py` registers them -/')
+    L.append(f'def serializerOrder : List String := {_lean_str_list(info.get("serializer_order", []))}')
+
+
 def extract():
     init = _parse('vivarium/__init__.py')
     store = _parse('vivarium/core/store.py')
@@ -146,6 +225,7 @@ def extract():
                 and n.targets[0].id == 'MULTI_UPDATE_KEY' and isinstance(n.value, ast.Constant):
             mk = n.value.value
     info['multi_update_key'] = mk or ''
+    _extract_serialize(info, init)
     return info
 
 
@@ -169,6 +249,7 @@ def render(info):
     L.append(f'def attrReadCommands : List String := {_lean_str_list(sorted(info["attribute_read_commands"]))}')
     L.append(f'def attrWriteCommands : List String := {_lean_str_list(sorted(info["attribute_write_commands"]))}')
     L.append(f'def multiUpdateKey : String := "{info["multi_update_key"]}"')
+    _render_serialize(info, L)
     L.append('')
     L.append('end Viv.Generated')
     return '\n'.join(L) + '\n'
